@@ -29,6 +29,23 @@ def gen_text(rng, paragraphs=None):
     return "\n\n".join(paras)
 
 
+def styled(rng, text):
+    """Cut a text into 2..6 non-empty fragments of alternating styles (a Doc built with text/literal/emphasis/invalid)."""
+    if len(text) < 4:
+        return text
+    cuts = sorted(set(rng.randrange(1, len(text)) for _ in range(rng.choice([1, 2, 3, 5]))))
+    parts, prev = [], 0
+    for c in cuts + [len(text)]:
+        parts.append(text[prev:c])
+        prev = c
+    out, last = [], None
+    for p in parts:
+        st = rng.choice([x for x in ("text", "literal", "emphasis", "invalid", "text") if x != last])
+        out.append((st, p))
+        last = st
+    return out
+
+
 class C13(Property):
     pid = "C13"
     quick_n = 220
@@ -43,6 +60,9 @@ class C13(Property):
         for _ in range(rng.choice([1, 2, 3, 5])):
             n = names.named(help_p=0.0)
             n["help"] = gen_text(rng)
+            if rng.random() < 0.3:
+                # a styled Doc as help: fragments of alternating style cut out of a multi-paragraph text
+                n["help"] = styled(rng, n["help"])
             k = rng.random()
             if k < 0.4:
                 fields.append(gen.flag(n))
